@@ -295,7 +295,7 @@ func (tree *Tree[T]) Find(pattern string) *node[T] { return tree.node.find(patte
 // NOTE: 会检测 pattern 是否存在于 tree 中。
 func (tree *Tree[T]) URL(buf *errwrap.StringBuilder, pattern string, ps map[string]string) error {
 	n := tree.Find(pattern)
-	if n == nil {
+	if n == nil || n.size() == 0 { // 没有处理方法的节点只是树的中间节点，并不是路由项。
 		return fmt.Errorf("%s 并不是一条有效的注册路由项", pattern)
 	}
 
